@@ -930,6 +930,12 @@ func init() {
 			in.goPanic(c.g, "nil", "sort.Sort(nil)", nil)
 			return nil
 		}
+		if nt, ok := data.t.(*types.Named); ok && nt.Obj().Pkg() != nil && nt.Obj().Pkg().Path() == "sort" {
+			// sort.StringSlice & co. are total orders on values: every ordered permutation is
+			// the same slice, so the real implementation is run (osm's package init sorts tables)
+			in.pushFrame(c.g, c.fn, c.args, nil, c.retTo)
+			panic(framePushed{})
+		}
 		mLen, mLess, mSwap := in.findMethod(data.t, "Len"), in.findMethod(data.t, "Less"), in.findMethod(data.t, "Swap")
 		nT := in.callSync(c.g, &Closure{fn: mLen}, []Value{data.v}).(*Term)
 		if !nT.IsConst() {
@@ -999,4 +1005,30 @@ func (in *Interp) jsonToValue(doc interface{}, t types.Type) Value {
 	}
 	in.unsupported("json decoding into %s", t)
 	return nil
+}
+
+// (time.Time).Sub for whole-second times without a monotonic reading: the real method
+// multiplies by 10^9 and then verifies the result with a division; the difference in
+// seconds times 10^9 is the same value as long as it does not saturate (assumed:
+// |t-u| < 2^33 s, recorded as a stub assumption).
+func init() {
+	intrinsics["(time.Time).Sub"] = func(in *Interp, c *callCtx) Value {
+		t, u := c.args[0].(StructV), c.args[1].(StructV)
+		tw, uw := t.f[0].(*Term), u.f[0].(*Term)
+		zero := in.tt.Const(64, 0)
+		if tw != zero || uw != zero {
+			in.pushFrame(c.g, c.fn, c.args, nil, c.retTo)
+			panic(framePushed{})
+		}
+		te, ue := t.f[1].(*Term), u.f[1].(*Term)
+		if te.IsConst() && ue.IsConst() {
+			in.pushFrame(c.g, c.fn, c.args, nil, c.retTo)
+			panic(framePushed{})
+		}
+		tt := in.tt
+		diff := tt.Bin(OpSub, te, ue)
+		lim := tt.Const(64, 1<<33)
+		in.assumeStub(tt.And(tt.Cmp(OpSlt, diff, lim), tt.Cmp(OpSlt, tt.Neg(lim), diff)), "time.Sub: |t-u| < 2^33 s (no saturation; durations derived from it by +/- constants do not overflow)")
+		return tt.MulScaled(diff, 1000000000)
+	}
 }
